@@ -63,7 +63,10 @@ Lemma scR_nth (l : valueR) : scR l = nth 0 l 0.
 Proof. destruct l; reflexivity. Qed.
 
 Lemma vzero_nth (v : varR) j : nth j (vzero Rops v) 0 = 0.
-Proof. unfold vzero. destruct (v_kind v); destruct j as [|[|[|[|[|j]]]]]; reflexivity. Qed.
+Proof.
+  unfold vzero. destruct (v_kind v) as [| | | |n]; try (destruct j as [|[|[|[|[|j]]]]]; reflexivity).
+  change (n0 Rops) with 0. revert j. induction n as [|n IH]; intros j; destruct j; cbn [repeat nth]; auto.
+Qed.
 
 Lemma fzero_nth (vs : list varR) k j : nth j (fzero Rops vs k) 0 = 0.
 Proof. unfold fzero. destruct (nth_error vs k); [apply vzero_nth|destruct j; reflexivity]. Qed.
@@ -361,6 +364,39 @@ Section Refine.
           apply (All4_buffer_clear c vs _ _ _ Hvars Hb mb_covers (Hbuf G)).
   Qed.
 
+  (* ---- add_hill of a hill that was not deposited by this instance (a hill of another replica) ---- *)
+  Lemma add_inv m s h : Inv m s -> length (h_c h) = length vs -> sig_ok vs (h_s h) ->
+    (c_use_grids c = true -> Clear (s_geom s) h) ->
+    Inv (add_hill Rops c m h) (mkS (s_tab s) (s_pend s ++ [h]) (s_geom s)).
+  Proof.
+    intros HI Hlx [Hsl Hsp] Hclr. destruct HI as [Hnew Hold Hsub Hgeom Hgrel He Hg Hoo Hon Hng Hcl].
+    unfold add_hill.
+    constructor; cbn [st_new st_old st_e st_g st_geom st_off_old st_off_new s_tab s_pend s_geom s_all].
+    - rewrite Hnew. reflexivity.
+    - exact Hold.
+    - exact Hsub.
+    - exact Hgeom.
+    - exact Hgrel.
+    - exact He.
+    - exact Hg.
+    - exact Hoo.
+    - intros G. rewrite G, Hgeom. cbn [andb].
+      destruct (geom_facts s G (Hgrel G)) as (Hb & Hgv & Hlen).
+      unfold near_hill.
+      destruct (near_edge Rops c (s_geom s) (h_s h) (h_c h)) eqn:En.
+      + apply Dropped_app; [apply Hon; exact G|]. apply D_keep. apply D_nil.
+      + rewrite <- (app_nil_r (st_off_new m)). apply Dropped_app; [apply Hon; exact G|].
+        apply D_drop; [|apply D_nil].
+        pose proof (not_near_far _ _ _ G Hb Hgv Hlen Hlx Hsl Hsp En (h_W h) (h_it h)) as Hf.
+        destruct h as [it w cx sg]. cbn [h_it h_W h_c h_s] in Hf. exact Hf.
+    - intros G. rewrite G. cbn [andb]. apply (Hng G).
+    - intros G h' Hin. apply in_app_or in Hin. destruct Hin as [Hin|Hin].
+      + apply (Hcl G). unfold s_all. apply in_or_app. left. exact Hin.
+      + apply in_app_or in Hin. destruct Hin as [Hin|[<-|[]]].
+        * apply (Hcl G). unfold s_all. apply in_or_app. right. exact Hin.
+        * apply Hclr. exact G.
+  Qed.
+
   (* ---- project_hills ---- *)
   Lemma project_inv m s : Inv m s -> c_use_grids c = true ->
     Inv (project Rops c m) (mkS (s_tab s ++ s_pend s) [] (s_geom s)).
@@ -605,18 +641,21 @@ Qed.
 
 (* the invariant does not depend on the widths, weight and frequency configured for the hills to come *)
 Lemma Inv_par c p g0 m s : Inv c g0 m s -> Inv (with_par c p) g0 m s.
-Proof. intros [f1 f2 f3 f4 f5 f6 f7 f8 f9 f10 f11]. constructor; assumption. Qed.
+Proof.
+  intros [f1 f2 f3 f4 f5 f6 f7 f8 f9 f10 f11]. constructor; try assumption.
+  cbn [with_par c_keep]. intros H. apply andb_prop in H. apply f2. tauto.
+Qed.
 
 Lemma final_cfg_cons (c : cfgR) e hist : final_cfg c (e :: hist) = final_cfg (next_cfg c e) hist.
 Proof. reflexivity. Qed.
 
 Lemma final_cfg_fixed (c : cfgR) hist :
   c_vars (final_cfg c hist) = c_vars c /\ c_use_grids (final_cfg c hist) = c_use_grids c /\
-  c_keep (final_cfg c hist) = c_keep c /\ c_eb (final_cfg c hist) = c_eb c /\ c_geom0 (final_cfg c hist) = c_geom0 c.
+  c_eb (final_cfg c hist) = c_eb c /\ c_geom0 (final_cfg c hist) = c_geom0 c.
 Proof.
   revert c. induction hist as [|e hist IH]; intros c; [repeat split|].
-  rewrite final_cfg_cons. destruct (IH (next_cfg c e)) as (H1 & H2 & H3 & H4 & H5).
-  rewrite H1, H2, H3, H4, H5. destruct e; repeat split.
+  rewrite final_cfg_cons. destruct (IH (next_cfg c e)) as (H1 & H2 & H3 & H4).
+  rewrite H1, H2, H3, H4. destruct e; repeat split.
 Qed.
 
 Lemma frun_app {A} (f : cfgR -> A -> eventR -> A) h1 : forall c h2 a,
@@ -657,6 +696,98 @@ Proof.
   intros Hok HH. unfold final_base, final_state, spec_run.
   apply (run_inv_gen hist c (c_geom0 c)); [exact Hok|apply cfg_geom0_ok; exact Hok| |exact HH].
   apply init_inv; [apply cfg_geom0_ok; exact Hok|reflexivity].
+Qed.
+
+(* ================================================================== multiple replicas: the mirror objects *)
+
+Definition mirror_ev := @mirror_event R.
+Definition mirror_spec (c : cfgR) (s : sstate) (e : mirror_ev) : sstate :=
+  match e with MAdd h => mkS (s_tab s) (s_pend s ++ [h]) (s_geom s) | MProj => spec_tabulate c s end.
+Definition mirror_run (c : cfgR) (evs : list mirror_ev) : stateR := fold_left (mirror_apply Rops c) evs (init_state Rops c).
+Definition mirror_spec_run (c : cfgR) (evs : list mirror_ev) : sstate := fold_left (mirror_spec c) evs (mkS [] [] (c_geom0 c)).
+(* multipleReplicas is refused together with expandBoundaries (and with keepHills) *)
+Definition no_expand (c : cfgR) : Prop := Forall (fun v => v_expand v = false) (c_vars c).
+(* a hill received from another replica: one centre per variable, positive widths *)
+Definition mirror_ok (c : cfgR) (e : mirror_ev) : Prop :=
+  match e with MAdd h => length (h_c h) = length (c_vars c) /\ sig_ok (c_vars c) (h_s h) | MProj => True end.
+
+Lemma clear_no_expand (vs : list varR) : Forall (fun v => v_expand v = false) vs -> forall g cx sg,
+  length g = length vs -> length cx = length vs -> length sg = length vs -> All4 clear_var vs g cx sg.
+Proof.
+  induction 1 as [|v vs Hv Hvs IH]; intros [|b g] [|x cx] [|si sg] H1 H2 H3; cbn in H1, H2, H3; try discriminate; cbn [All4]; [exact I|].
+  split; [|apply IH; congruence]. unfold clear_var. intros E. congruence.
+Qed.
+
+Lemma mirror_inv_gen c : cfg_ok c -> no_expand c -> forall evs m s, Forall (mirror_ok c) evs ->
+  Inv c (c_geom0 c) m s -> s_geom s = c_geom0 c ->
+  Inv c (c_geom0 c) (fold_left (mirror_apply Rops c) evs m) (fold_left (mirror_spec c) evs s) /\
+  s_geom (fold_left (mirror_spec c) evs s) = c_geom0 c.
+Proof.
+  intros Hok Hne. pose proof (cfg_geom0_ok c Hok) as Hg0.
+  induction evs as [|e evs IH]; intros m s HF HI Hgeo; cbn [fold_left]; [split; assumption|].
+  inversion HF as [|e' l' He Hl]; subst.
+  destruct e as [h|]; cbn [mirror_apply mirror_spec].
+  - destruct He as [Hlx Hsg]. apply IH; [exact Hl| |exact Hgeo].
+    apply (add_inv c Hok (c_geom0 c) Hg0 m s h HI Hlx Hsg).
+    intros G. split; [|exact (proj2 Hsg)].
+    destruct (geom_facts c Hok (c_geom0 c) Hg0 s G (inv_grel _ _ _ _ HI G)) as (_ & _ & Hlen).
+    apply clear_no_expand; [exact Hne|exact Hlen|exact Hlx|exact (proj1 Hsg)].
+  - unfold spec_tabulate. destruct (c_use_grids c) eqn:G.
+    + apply IH; [exact Hl| |exact Hgeo]. apply (project_inv c Hok (c_geom0 c) Hg0 m s HI G).
+    + apply IH; [exact Hl|exact HI|exact Hgeo].
+Qed.
+
+Lemma mirror_inv c evs : cfg_ok c -> no_expand c -> Forall (mirror_ok c) evs ->
+  Inv c (c_geom0 c) (mirror_run c evs) (mirror_spec_run c evs) /\ s_geom (mirror_spec_run c evs) = c_geom0 c.
+Proof.
+  intros Hok Hne HF. apply (mirror_inv_gen c Hok Hne evs _ _ HF); [|reflexivity].
+  apply init_inv; [apply cfg_geom0_ok; exact Hok|reflexivity].
+Qed.
+
+(* what a mirror contributes: the sum of the hills received from its replica (tabulated at the bin centre, the others at x) *)
+Lemma mirror_energy c evs x : cfg_ok c -> no_expand c -> Forall (mirror_ok c) evs -> adm c (c_geom0 c) x ->
+  calc_energy Rops c (mirror_run c evs) x = spec_energy c (mirror_spec_run c evs) x.
+Proof.
+  intros Hok Hne HF Ha. destruct (mirror_inv c evs Hok Hne HF) as [HI _].
+  apply (energy_spec c Hok (c_geom0 c) (cfg_geom0_ok c Hok) _ _ x HI Ha).
+Qed.
+
+Lemma mirror_force c evs x k j : cfg_ok c -> no_expand c -> Forall (mirror_ok c) evs -> adm c (c_geom0 c) x ->
+  (k < length (c_vars c))%nat ->
+  nth j (calc_force Rops c (mirror_run c evs) x k) 0 = spec_force c (mirror_spec_run c evs) x k j.
+Proof.
+  intros Hok Hne HF Ha Hk. destruct (mirror_inv c evs Hok Hne HF) as [HI _].
+  apply (force_spec c Hok (c_geom0 c) (cfg_geom0_ok c Hok) _ _ x k j HI Ha Hk).
+Qed.
+
+(* the hills a mirror holds are those received, in order *)
+Lemma mirror_hills c evs : s_all (mirror_spec_run c evs) = flat_map (fun e => match e with MAdd h => [h] | MProj => [] end) evs.
+Proof.
+  unfold mirror_spec_run.
+  assert (G : forall evs s, s_all (fold_left (mirror_spec c) evs s) =
+                            s_all s ++ flat_map (fun e : mirror_ev => match e with MAdd h => [h] | MProj => [] end) evs).
+  { clear. induction evs as [|e evs IH]; intros s; cbn [fold_left flat_map]; [rewrite app_nil_r; reflexivity|].
+    rewrite IH. destruct e as [h|]; cbn [mirror_spec].
+    - unfold s_all. cbn [s_tab s_pend]. rewrite <- !app_assoc. reflexivity.
+    - unfold spec_tabulate, s_all. destruct (c_use_grids c); cbn [s_tab s_pend app]; rewrite ?app_nil_r; reflexivity. }
+  rewrite G. reflexivity.
+Qed.
+
+(* the energy over this replica and the mirrors: the sum of what each holds *)
+Lemma total_energy_sum (c : cfgR) own ms x :
+  total_energy Rops c own ms x = calc_energy Rops c own x + Rsum (map (fun m => calc_energy Rops c m x) ms).
+Proof.
+  unfold total_energy. generalize (calc_energy Rops c own x). induction ms as [|m ms IH]; intros a; cbn [fold_left map Rsum]; [lra|].
+  rewrite IH. cbn [nadd Rops]. lra.
+Qed.
+
+Lemma total_force_sum (c : cfgR) own ms x k j :
+  total_force Rops c own ms x k j =
+  nth j (calc_force Rops c own x k) 0 + Rsum (map (fun m => nth j (calc_force Rops c m x k) 0) ms).
+Proof.
+  unfold total_force. change (n0 Rops) with 0. generalize (nth j (calc_force Rops c own x k) 0).
+  induction ms as [|m ms IH]; intros a; cbn [fold_left map Rsum]; [lra|].
+  rewrite IH. cbn [nadd Rops]. lra.
 Qed.
 
 Lemma hist_ok_app h1 : forall c g0 s h2,
@@ -725,12 +856,11 @@ Qed.
 
 Lemma schedule_holds c hist : cfg_ok c -> history_ok c hist ->
   st_new (final_state Rops c hist) = s_pend (spec_run c hist) /\
-  (c_keep c = true -> st_old (final_state Rops c hist) = s_tab (spec_run c hist)) /\
+  (c_keep (final_cfg c hist) = true -> st_old (final_state Rops c hist) = s_tab (spec_run c hist)) /\
   Dropped (fun _ => True) (s_tab (spec_run c hist)) (st_old (final_state Rops c hist)) /\
   st_geom (final_state Rops c hist) = s_geom (spec_run c hist).
 Proof.
-  intros H1 H2. destruct (run_inv c hist H1 H2) as [[Hnew Hold Hsub Hgeom _ _ _ _ _ _ _] _].
-  destruct (final_cfg_fixed c hist) as (_ & _ & Hk & _). rewrite Hk in Hold. auto.
+  intros H1 H2. destruct (run_inv c hist H1 H2) as [[Hnew Hold Hsub Hgeom _ _ _ _ _ _ _] _]. auto.
 Qed.
 
 Lemma energy_holds c hist i : cfg_ok c -> history_ok c (hist ++ [EStep i]) ->
@@ -749,6 +879,36 @@ Proof.
   pose proof (last_step_adm c hist i H2) as Ha. rewrite final_cfg_step in *.
   rewrite (force_spec _ Hok' _ Hb _ _ _ _ _ HI Ha); [apply spec_force_final|].
   destruct (final_cfg_fixed c hist) as (Hv & _). rewrite Hv. exact Hk.
+Qed.
+
+(* multiple replicas: the energy and the forces returned at a step, summed over this replica and the mirrors of the
+   others, are those of the hills this replica deposited plus the hills received from every other replica *)
+Lemma replicas_energy c hist i mevs : cfg_ok c -> history_ok c (hist ++ [EStep i]) ->
+  no_expand (final_cfg c hist) -> Forall (Forall (mirror_ok (final_cfg c hist))) mevs ->
+  adm (final_cfg c hist) (c_geom0 (final_cfg c hist)) (i_x i) ->
+  total_energy Rops (final_cfg c hist) (final_state Rops c (hist ++ [EStep i])) (map (mirror_run (final_cfg c hist)) mevs) (i_x i) =
+  spec_energy c (spec_run c (hist ++ [EStep i])) (i_x i) +
+  Rsum (map (fun evs => spec_energy (final_cfg c hist) (mirror_spec_run (final_cfg c hist) evs) (i_x i)) mevs).
+Proof.
+  intros H1 H2 Hne HF Ha. rewrite total_energy_sum, <- out_energy_eq, (energy_holds c hist i H1 H2). f_equal.
+  destruct (run_inv c _ H1 H2) as (_ & _ & Hok'). rewrite final_cfg_step in Hok'.
+  rewrite map_map. induction HF as [|evs l He Hl IH]; cbn [map Rsum]; [reflexivity|].
+  rewrite IH, (mirror_energy _ evs (i_x i) Hok' Hne He Ha). reflexivity.
+Qed.
+
+Lemma replicas_force c hist i mevs k j : cfg_ok c -> history_ok c (hist ++ [EStep i]) ->
+  no_expand (final_cfg c hist) -> Forall (Forall (mirror_ok (final_cfg c hist))) mevs ->
+  adm (final_cfg c hist) (c_geom0 (final_cfg c hist)) (i_x i) -> (k < length (c_vars c))%nat ->
+  total_force Rops (final_cfg c hist) (final_state Rops c (hist ++ [EStep i])) (map (mirror_run (final_cfg c hist)) mevs) (i_x i) k j =
+  spec_force c (spec_run c (hist ++ [EStep i])) (i_x i) k j +
+  Rsum (map (fun evs => spec_force (final_cfg c hist) (mirror_spec_run (final_cfg c hist) evs) (i_x i) k j) mevs).
+Proof.
+  intros H1 H2 Hne HF Ha Hk. rewrite total_force_sum, <- (out_force_eq c hist i k Hk), (force_holds c hist i k j H1 H2 Hk). f_equal.
+  destruct (run_inv c _ H1 H2) as (_ & _ & Hok'). rewrite final_cfg_step in Hok'.
+  assert (Hk' : (k < length (c_vars (final_cfg c hist)))%nat).
+  { destruct (final_cfg_fixed c hist) as (Hv & _). rewrite Hv. exact Hk. }
+  rewrite map_map. induction HF as [|evs l He Hl IH]; cbn [map Rsum]; [reflexivity|].
+  rewrite IH, (mirror_force _ evs (i_x i) k j Hok' Hne He Ha Hk'). reflexivity.
 Qed.
 
 Lemma grid_is_projected_sum c hist : cfg_ok c -> history_ok c hist ->
@@ -902,14 +1062,14 @@ Proof.
   unfold spec_step, spec_expand. rewrite next_geom_keep. reflexivity.
 Qed.
 
-Lemma next_cfg_keep (c : cfgR) b e : next_cfg (set_keep c b) e = set_keep (next_cfg c e) b.
-Proof. destruct e; reflexivity. Qed.
+Lemma next_cfg_keep (c : cfgR) b e : exists b', next_cfg (set_keep c b) e = set_keep (next_cfg c e) b'.
+Proof. destruct e as [i| |r| |p]; try (exists b; reflexivity). exists (b && p_keep p)%bool. reflexivity. Qed.
 
 Lemma spec_run_keep c b hist : spec_run (set_keep c b) hist = spec_run c hist.
 Proof.
   unfold spec_run. change (c_geom0 (set_keep c b)) with (c_geom0 c). generalize (mkS [] [] (c_geom0 c)).
-  revert c. induction hist as [|e hist IH]; intros c s; cbn [frun]; [reflexivity|].
-  rewrite spec_event_keep, next_cfg_keep. apply IH.
+  revert c b. induction hist as [|e hist IH]; intros c b s; cbn [frun]; [reflexivity|].
+  rewrite spec_event_keep. destruct (next_cfg_keep c b e) as [b' ->]. apply IH.
 Qed.
 
 Lemma keep_hills_irrelevant c b hist i : cfg_ok c ->
